@@ -238,7 +238,7 @@ def run(prop_id, tier, seed, replay=None):
     rep = vlib.Report(prop_id, tier, seed)
     wd = vlib.workdir(prop_id)
     quick = tier == "quick"
-    jvm = ["-XX:ParallelGCThreads=2", "-Xmx3g"]
+    jvm = ["-XX:ParallelGCThreads=2", "-Xmx3g", "-Xss64m"]
     rep.rule = ("cases of spec/VI.tla (printed by TLC) built with the public genjax API (genjax.gen models, "
                 "genjax.marginal guides with vi.flip_enum / vi.categorical_enum / flip / vi.normal_reparam, genjax.Target) "
                 "and run through vi.ELBO/IWELBO/PWake/QWake on the whole parameter grid with keys from the seed; TLC "
